@@ -309,6 +309,9 @@ func newEngExec(e *EngCfg) (*engExec, error) {
 	if err := writeCfg(&e.Cfg, map[string]string{"f.yaml": e.flowYAML()}); err != nil {
 		return nil, err
 	}
+	if err := applyLiveness(&e.Cfg); err != nil {
+		return nil, err
+	}
 	clk, cancel := freshClock()
 	st, err := streams.NewStream()
 	if err != nil {
